@@ -2211,6 +2211,13 @@ impl SecureDiscovery {
         }
       };
 
+    // Whatever keys we have sent to the endpoints of this participant earlier (if
+    // it was lost and is now back), it has forgotten them like we have forgotten
+    // theirs: they will have to be sent again.
+    self
+      .user_data_endpoints_with_keys_already_sent_to
+      .retain(|(_local, remote)| remote.prefix != remote_guid_prefix);
+
     // Send local participant crypto tokens to remote
     // TODO: do this only if needed?
     let crypto_tokens_res = self
